@@ -26,7 +26,7 @@ ENGINE_KIND = {
 
 CHECKS["C18"] = dict(
     engine="hash", flavour="asan", level="exploration", gen=gen_hash,
-    sources=["engines/hash/main.cpp", "engines/hash/lean_endian.cpp", "engines/hash/early_endian.cpp"], flags=["-fno-sanitize=shift-base"],
+    sources=["engines/hash/main.cpp", "engines/hash/lean_endian.cpp", "engines/hash/early_endian.cpp", "engines/hash/ndebug_endian.cpp", "engines/hash/const_endian.cpp"], flags=["-fno-sanitize=shift-base"],
     rule=("cases = (byte string, k0, k1) triples through SipHash::Compute over BlockReader<uint8_t/char/int8_t> compared with an "
           "independent SipHash-2-4 (every length 0..1100 at least once, random and extreme keys, 7-bit / random / 0x00 / 0x80 / 0xff contents), plus "
           "generated NOP_TABLE_NS tables, NOP_INTERFACE/NOP_INTERFACE32 interfaces with NOP_METHOD selectors and constexpr literals whose "
@@ -43,15 +43,15 @@ CHECKS["C18"] = dict(
 
 CHECKS["C20"] = dict(
     engine="hash", flavour={"quick": "asan", "thorough": "plain"}, level="exploration", gen=gen_hash,
-    sources=["engines/hash/main.cpp", "engines/hash/lean_endian.cpp", "engines/hash/early_endian.cpp"], flags=["-fno-sanitize=shift-base"],
+    sources=["engines/hash/main.cpp", "engines/hash/lean_endian.cpp", "engines/hash/early_endian.cpp", "engines/hash/ndebug_endian.cpp", "engines/hash/const_endian.cpp"], flags=["-fno-sanitize=shift-base"],
     rule=("cases = values x of int8..int64, uint8..uint64, float, double; FromLittle/ToLittle/FromBig/ToBig and the To∘From compositions are compared by bit "
           "pattern with an independent memcpy byte reversal selected by a run-time endianness probe. 8/16-bit: all values; 32-bit: 2^24 strided "
           "values per type (quick) or all 2^32 bit patterns (thorough); all widths >= 32: every byte-lane value, walking ones/zeros, boundaries, NaN classes; "
           "64-bit: 2^20 / 2^26 random incl. NaN payloads. Also every distinct integral type of the ABI (long long, unsigned long long, char, wchar_t, char16_t, char32_t), and the "
-          "same conversions compiled in a lean translation unit that includes the library header first (include-order independence), and conversions made during static initialisation by an early-initialised global of another translation unit. distinct = enumerated values (disjoint by construction) + hashed patterns; "
+          "same conversions compiled in a lean translation unit that includes the library header first (include-order independence), and conversions made during static initialisation by an early-initialised global of another translation unit. Also the conversions compiled in a translation unit built with NDEBUG (release build of a header-only library), and namespace-scope / function-local static const objects initialised with constant arguments (where the compiler may evaluate the conversion itself). distinct = enumerated values (disjoint by construction) + hashed patterns; "
           "non-trivial = byte reversal changes the value."),
     floor={"quick": 100000, "thorough": 1000000},
-    require_counters=["c20_values_checked", "c20_lean_translation_unit_values", "c20_static_initialisation_values"],
+    require_counters=["c20_values_checked", "c20_lean_translation_unit_values", "c20_static_initialisation_values", "c20_values_converted_in_an_NDEBUG_translation_unit", "c20_constants_the_compiler_may_fold"],
     exhaustive_counter="c20_exhaustive_32bit_values",
     technique="runtime value oracle (independent byte reversal), exhaustive sweeps for <= 32 bit in thorough, ASan/UBSan in quick",
     level_text="exploration, exhaustive where feasible: all 8/16-bit values always, all 2^32 bit patterns of int32/uint32/float in the thorough tier, byte-lane/boundary/NaN-payload/random coverage for 64-bit; every value is decided exactly by an independent memcpy byte reversal.",
@@ -119,7 +119,7 @@ _codec_check(
     "other-signedness rejected), boundary value substitutions in length/count/id/size/hash/index/tag fields, Val-level single defects (fixed count +-1 with matching payload, "
     "non-multiple byte lengths, logical buffer above capacity), noise, random strings. Oracle = RefDecode: accept/reject, decoded value, consumed length on every input; "
     "error category only where the reference's first error sits exactly at the single injected defect. Every other input is decoded into a destination that already holds another value. distinct = hash(type, bytes); non-trivial = non-empty input.",
-    {"quick": 50000, "thorough": 1000000}, ["c04_differential_decodes", "c04_accepted_and_value_compared", "c04_single_defect_categories_compared", "c04_inputs_reference_accepts", "c04_inputs_reference_rejects", "c04_decodes_into_used_destination"],
+    {"quick": 50000, "thorough": 1000000}, ["c04_differential_decodes", "c04_accepted_and_value_compared", "c04_single_defect_categories_compared", "c04_inputs_reference_accepts", "c04_inputs_reference_rejects", "c04_decodes_into_used_destination", "c04_valid_encodings_on_every_reader", "c04_valid_encodings_on_a_trickling_pipe"],
     "exploration: 10^5-10^7 structure-aware hostile inputs per run, each decided exactly against an independent schema-directed decoder; the input language is infinite so sampling directed by field annotations is the reachable level.",
     "trusts ref/refcodec.h as the statement of docs/format.md; two documented ambiguities resolved as in DESIGN.md 2.3 (variant index is INT32; duplicate-key maps compared on accept/consumed only)",
     "differential decoding against an independent reference decoder under ASan/UBSan; coverage-guided libFuzzer stage in the thorough tier",
@@ -131,7 +131,7 @@ _codec_check(
     "chunked Stream/Fd. Monitors: ASan (every input in its own exactly-sized allocation), UBSan, allocation meter with cap 64 KiB + 1024 x input length on any single request "
     "and on peak live bytes, per-case watchdog; post-conditions after a failed read: inspect the object, read a valid encoding into it and compare with a fresh decode, destroy. "
     "NOP_UNBOUNDED_BUFFER structures and bool/loose-enum BIN elements excluded as stated. distinct = hash(type, bytes).",
-    {"quick": 50000, "thorough": 1000000}, ["c02_monitored_decodes", "c02_failed_reads_followed_by_reread", "max_peak_alloc_bytes", "c02_decodes_into_used_destination"],
+    {"quick": 50000, "thorough": 1000000}, ["c02_monitored_decodes", "c02_failed_reads_followed_by_reread", "max_peak_alloc_bytes", "c02_decodes_into_used_destination", "c02_bounded_over_unbounded_readers_running_dry"],
     "exploration under sanitizers: 10^5-10^7 hostile inputs each executed under ASan/UBSan with an armed allocation cap and a watchdog; memory safety is decided for the executions produced, not for all inputs.",
     "ASan red zones miss non-adjacent overflows (mitigated by dedicated exact-size allocations); the allocation cap is two orders of magnitude above legitimate use",
     "ASan/UBSan + allocation meter + watchdog over structure-aware hostile inputs; coverage-guided libFuzzer stage in the thorough tier",
@@ -143,7 +143,7 @@ _codec_check(
     "every reader kind: Buffer, Pedantic, Log, Stream over stringstream and over a non-seekable chunked streambuf, Fd over memfd and over a pipe closed after k bytes, Bounded over each with "
     "limit beyond the data and with limit = k over the full data; tables are additionally read by a different table version that skips entries (unknown / deleted ids). Oracle: status must be "
     "an error. Every cut is also fed to every Deserializer form (internal instance, pointer, unique_ptr, Protocol::Read) of seven hand-written types. distinct = enumerated (value, k, reader, mode) tuples; non-trivial = k > 0.",
-    {"quick": 100000, "thorough": 1000000}, ["c05_cut_reads", "c05_cut_reads_by_other_table_version", "c05_cut_reads_of_padded_tables", "c05_reader_FdReader", "c05_reader_StreamReader<chunked non-seekable>", "forms_cut_reads", "cases_on_unbounded_buffer_types", "c05_values_above_64KiB"],
+    {"quick": 100000, "thorough": 1000000}, ["c05_cut_reads", "c05_cut_reads_by_other_table_version", "c05_cut_reads_of_padded_tables", "c05_reader_FdReader", "c05_reader_StreamReader<chunked non-seekable>", "forms_cut_reads", "cases_on_unbounded_buffer_types", "c05_values_above_64KiB", "c05_second_reads_on_the_same_reader"],
     "fault enumeration: for each generated encoding every cut position is enumerated on every reader implementation (exhaustive per encoding up to 512 bytes); types and values are sampled.",
     "fd and stream media are memfd/pipe/stringstream/custom streambuf inside one process",
     "exhaustive cut-point enumeration per encoding on every shipped reader, under ASan/UBSan",
@@ -167,8 +167,8 @@ _codec_check(
     "injected error, zero calls after the failure, nothing written when Prepare fails; handle resolution errors are returned unchanged. "
     "RPC layer: every writer call of three requests through SimpleMethodSender (value-returning and void methods) and every reader call of the reply; every reader call of the request and every writer call of the "
     "reply in the dispatcher with lambda and member-function bindings: error returned unchanged, no further calls, no reply read after a failed send, no handler / reply after a failed request read. "
-    "API forms: the same fail-at-k sweep through Serializer<LogWriter> / <LogWriter*> / <unique_ptr<LogWriter>>, the three Deserializer forms and Protocol<T>::Write/Read.",
-    {"quick": 50000, "thorough": 500000}, ["c10_write_faults", "c10_read_faults", "c10_rpc_sender_write_faults", "c10_rpc_sender_read_faults", "c10_rpc_dispatch_read_faults", "c10_rpc_dispatch_write_faults", "c10_fault_at_Prepare_w", "c10_fault_at_Ensure_r", "c10_fault_at_Skip_r", "c10_fault_at_PushHandle_w", "c10_fault_at_GetHandle_r", "forms_write_faults", "forms_read_faults", "c10_values_above_64KiB"],
+    "API forms: the same fail-at-k sweep through Serializer<LogWriter> / <LogWriter*> / <unique_ptr<LogWriter>>, the three Deserializer forms and Protocol<T>::Write/Read. Writer/reader shapes: classes whose Prepare / Ensure is overloaded, a template, has a defaulted extra parameter, is inherited, const, or exposed by a using-declaration must see the same call sequence as a plain writer/reader (Prepare first, with the encoded size), the same fail-at-k behaviour, and nothing written after a refusing Prepare.",
+    {"quick": 50000, "thorough": 500000}, ["c10_write_faults", "c10_read_faults", "c10_rpc_sender_write_faults", "c10_rpc_sender_read_faults", "c10_rpc_dispatch_read_faults", "c10_rpc_dispatch_write_faults", "c10_fault_at_Prepare_w", "c10_fault_at_Ensure_r", "c10_fault_at_Skip_r", "c10_fault_at_PushHandle_w", "c10_fault_at_GetHandle_r", "forms_write_faults", "forms_read_faults", "c10_values_above_64KiB", "forms_writer_shapes_written", "forms_writer_shape_faults", "forms_writer_shape_refusals", "forms_reader_shapes_read", "forms_reader_shape_faults"],
     "fault enumeration: for each generated value every primitive-call index is failed with every error code (exhaustive in k per value); types and values are sampled.",
     "the instrumented LogReader/LogWriter implement the documented Reader/Writer interface",
     "exhaustive fail-at-k injection through instrumented reader/writer with call-log oracle")
@@ -179,7 +179,7 @@ _codec_check(
     "residue of a read that failed at a random cut (with and without a prior assignment). The reader kind rotates with the case over Pedantic, Buffer, Stream, chunked non-seekable Stream, Fd and Bounded readers "
     "(arbitrary byte strings only on readers that bound the input themselves). Oracle: status and decoded value tree equal to a decode into a fresh object; ASan/LSan report leaks or "
     "double destruction of element objects. distinct = hash(type, bytes, prior value, prior kind); non-trivial = prior state is not default.",
-    {"quick": 20000, "thorough": 200000}, ["c11_prior_state_decodes", "c11_prior_kind_3", "c11_invalid_incoming", "c11_reader_StreamReader<stringstream>", "c11_reader_FdReader", "c11_reader_BufferReader"],
+    {"quick": 20000, "thorough": 200000}, ["c11_prior_state_decodes", "c11_prior_kind_3", "c11_invalid_incoming", "c11_reader_StreamReader<stringstream>", "c11_reader_FdReader", "c11_reader_BufferReader", "c11_values_above_64KiB"],
     "exploration: 10^4-10^6 (prior, incoming) pairs per run each decided exactly by comparison with a fresh decode; histories producing the prior state are sampled from four families.",
     "element lifetimes are monitored by ASan/LSan on the containers' own allocations",
     "differential decode (prior-state object vs fresh object) under ASan/LSan")
@@ -205,7 +205,7 @@ CHECKS["C12"] = dict(
           "constructor that throws on its n-th construction. After every operation a shadow model {index, value} is compared through index/empty/Visit/get<T>/get<I>/is<T> and a lifetime registry is audited "
           "(live elements = non-empty tracked alternatives, no double destruction, no use of a dead object, nothing alive at the end). Exhaustive: every history of length <= 3 (quick) / 4 (thorough) over the "
           "98-operation alphabet; then random histories of length <= 40. Special scenarios: every constructor form (default, EmptyVariant, copy/move from empty and non-empty, converting copy/move from an empty and non-empty "
-          "Variant<Other...>, single-alternative Variants incl. swap and vector growth) placement-constructed into storage pre-filled with five byte patterns, so an uninitialised member shows as a wrong index()/Visit; a 130-alternative Variant at alternatives 0, 1, 63, 64, 126..129 (Become, copy, move, assign, get, Visit); an alternative that is a union type with a destructor. distinct = enumerated histories + hashed random ones; non-trivial = 2+ operations."),
+          "Variant<Other...>, single-alternative Variants incl. swap and vector growth) placement-constructed into storage pre-filled with five byte patterns, so an uninitialised member shows as a wrong index()/Visit; a 130-alternative Variant at alternatives 0, 1, 63, 64, 126..129 (Become, copy, move, assign, get, Visit); an alternative that is a union type with a destructor. Become(i, args...) from every state to every index incl. out-of-range, with a bool alternative next to pointer-constructible ones; get<T>()/is<T>() with T spelled with another cv-qualification than declared. distinct = enumerated histories + hashed random ones; non-trivial = 2+ operations."),
     floor={"quick": 100000, "thorough": 1000000}, require_counters=["c12_operations_executed", "c12_injected_constructor_exceptions", "c12_random_histories", "c12_special_scenarios", "second_compiler_c12_special_scenarios"],
     technique="shadow-model interpreter + lifetime registry over bounded-exhaustive and random operation histories, under ASan/UBSan",
     level_text="exploration with an exhaustive core: all operation histories up to length 3/4 over a 98-operation alphabet are enumerated and each step is decided exactly against a shadow model and a lifetime registry; longer histories are sampled.",
@@ -236,7 +236,7 @@ CHECKS["C15"] = dict(
           "the values round-trip; a corrupted type tag gives UnexpectedHandleType, a tag differing in any single bit (also above the width of a narrow tag type) is rejected without calling GetHandle; a resolver error is returned unchanged. (b) ownership: every history of length <= 4/5 over 3 UniqueHandles with a counting policy "
           "(construct, move-assign incl. self, move-construct, release, close, destroy, assign temporary / empty), random to length 40: each resource closed exactly once when its owner drops it, never after "
           "release or while still owned; real descriptors through UniqueFileHandle checked with fcntl, incl. descriptor 0 in a forked child whose stdin is closed, and an interposed close() that reports EINTR after releasing the descriptor (no second close of that number)."),
-    floor={"quick": 100000, "thorough": 1000000}, require_counters=["c15_operations_executed", "c15_handles_pushed", "c15_values_read_back", "c15_corrupted_tags", "c15_resolver_errors_injected", "c15_real_fd_cases", "c15_fd0_child_cases", "c15_interrupted_close_cases"],
+    floor={"quick": 100000, "thorough": 1000000}, require_counters=["c15_operations_executed", "c15_handles_pushed", "c15_values_read_back", "c15_corrupted_tags", "c15_resolver_errors_injected", "c15_real_fd_cases", "c15_fd0_child_cases", "c15_interrupted_close_cases", "c15_file_handles_moved_into_their_base_class"],
     technique="call-log oracle on instrumented reader/writer + counting handle policy over bounded-exhaustive ownership histories, under ASan/UBSan",
     level_text="exploration with an exhaustive core: all ownership histories up to length 4/5 over a 30-operation alphabet; handle-bearing values, returned references and corruptions are sampled and each case decided exactly from the call logs.",
     level_note="handle-capable readers/writers shipped with libnop do not exist; the documented PushHandle/GetHandle interface is implemented by the harness' LogWriter/LogReader",
@@ -306,8 +306,8 @@ CHECKS["C07"] = dict(
           "entries (quick: 3 pools x 10 versions, thorough: 8 pools x 24 versions per seed), each emitted in four contexts: top level, inside a structure followed by more data, inside a vector, inside an entry of another table. "
           "case = (writer version, reader version, context, assignment of empty/non-empty to the writer's entries, values fitting every fungible alternative): all ordered pairs of versions of a pool are executed; low case "
           "indices sweep the assignments in order. Oracle = projection model (entry active and non-empty in the writer and active in the reader carries its value tree; everything else empty) on 6 readers incl. a non-seekable "
-          "stream and BoundedReader; reader position = end of the encoding; a trailing sentinel reads back; half of the reads go into an object already holding other entries. distinct = hash(pair, bytes, context)."),
-    floor={"quick": 2000, "thorough": 50000}, require_counters=["c07_cross_version_reads", "c07_cases_between_different_versions", "c07_context_table{Entry<table>;u16}", "c07_context_vector<table>"],
+          "stream and BoundedReader; reader position = end of the encoding; a trailing sentinel reads back; half of the reads go into an object already holding other entries. Half of the tables are the last thing on the stream (the reader ends exactly after the table, no sentinel), half are followed by more data; entry types include arrays and vectors of enums, strings and wider integers. Result<E,void> and Status<void>: copy/move construction and assignment, error assignment, clear, self-assignment, swap and vector growth over every pair of states. Histories include handles of a class derived from UniqueHandle moved into a UniqueHandle (construction and assignment); a real UniqueFileHandle moved into UniqueHandle<FileHandlePolicy> must lead to exactly one close(2) (interposed) and none after release(). distinct = hash(pair, bytes, context)."),
+    floor={"quick": 2000, "thorough": 50000}, require_counters=["c07_cross_version_reads", "c07_cases_between_different_versions", "c07_context_table{Entry<table>;u16}", "c07_context_vector<table>", "c07_tables_ending_the_stream", "c07_tables_followed_by_more_data"],
     technique="generated schema-evolution histories executed pairwise at run time against a projection model, under ASan/UBSan",
     level_text="exploration over generated programs: every ordered pair of versions of every generated pool is executed with swept empty/non-empty assignments and sampled values, each read decided exactly by the projection model.",
     level_note="pool sizes, history lengths and nesting contexts are bounded; values are generated on the most constrained fungible alternative so they fit both sides",
@@ -344,7 +344,7 @@ CHECKS["C09"] = dict(
           "width/signedness, enum/underlying, integral element vs wrapped integral element, array length, tuple arity, table id/hash/deleted marker, Optional<T>/T, map/vector<pair>, string/vector<char>, variant order, "
           "dropped member) — the trait is only observed. Constants emitted per pair: IsFungible<A,B>, <B,A>, <A,A>, <B,B>, on signatures, whether Protocol<A>::Write/Read admits B, and whether Method::Bind admits a handler written over B for a method declared over A (by const reference, by value, mixed, as return type) - all must equal IsFungible<A,B>. For every pair where the trait "
           "is true, values of A (and of B) whose element counts fit the other type are encoded, decoded as the other type through a rotating reader kind (pedantic, seekable stream, chunked non-seekable stream, bounded; value tree must be equal, all bytes consumed) and re-encoded (same bytes; modulo entry order when "
-          "an unordered_map is involved). distinct = hash(pair, bytes, direction)."),
+          "an unordered_map is involved). Declared entry sizes include 2^64-1, 2^64-2, 2^64-(value size), 2^64-(offset), 2^63 and 2^32 with the bytes kept (a limit computation that wraps would accept them). distinct = hash(pair, bytes, direction)."),
     floor={"quick": 1000, "thorough": 20000},
     require_counters=["c09_pairs", "c09_documented_pairs", "c09_near_miss_pairs", "c09_pairs_trait_true", "c09_pairs_trait_false", "c09_cross_decodes", "c09_trait_true_pairs_wire_tested", "c09_bind_probes", "c09_reader_StreamReader<chunked non-seekable>"],
     technique="compile-time trait values emitted as constants + run-time cross-decode/re-encode oracle over generated type pairs, under ASan/UBSan",
@@ -375,7 +375,7 @@ CHECKS["C14"] = dict(
           "with only 0..11 bytes of room in the reply direction: a dispatcher that reports success must have produced one complete reply. A hand-written interface has handlers returning references into their decoded arguments; another one relays: its handlers invoke the same method on a peer node from inside the handler "
           "(nested dispatch of one method on one thread, depth 0..5) and read their own arguments afterwards."),
     floor={"quick": 3000, "thorough": 100000},
-    require_counters=["c14_calls", "c14_bound_calls_checked", "c14_unbound_calls_checked", "c14_raw_requests_valid", "c14_raw_requests_invalid", "c14_fd_transport_calls", "c14_call_sequences", "c14_reply_write_failures_injected", "c14_reference_returning_handler_calls", "c14_reentrant_dispatch_calls", "c14_interfaces_with_table_arguments_(no_fd_transport)", "c14_stream_transport_calls"],
+    require_counters=["c14_calls", "c14_bound_calls_checked", "c14_unbound_calls_checked", "c14_raw_requests_valid", "c14_raw_requests_invalid", "c14_fd_transport_calls", "c14_call_sequences", "c14_reply_write_failures_injected", "c14_reference_returning_handler_calls", "c14_reentrant_dispatch_calls", "c14_interfaces_with_table_arguments_(no_fd_transport)", "c14_stream_transport_calls", "c14_raw_requests_through_BufferReader"],
     technique="handler-invocation log + byte-accounting loopback transport + reference decoding of requests/replies over generated interfaces, under ASan/UBSan",
     level_text="exploration over generated programs: each generated interface is driven by sampled call sequences, a selector/argument cross product and the hostile-request catalogue; every call is decided exactly from the handler log, the byte counters and an independent decode of both directions.",
     level_note="the loopback transport is the harness' own (documented Reader/Writer interface); the out-parameter overload of Invoke (no return statement) is not used",
@@ -398,10 +398,10 @@ CHECKS["C19"] = dict(
           "readers incl. a table read by another version, writer/reader primitives incl. Skip with a thread-specific padding value on Stream/Pedantic/Constexpr/Bounded writers, Variant/Optional/Result operations, SipHash, "
           "RPC calls over a private loopback, and ThreadLocal construct/Initialize/Get/write/Clear on 6 (T, Slot) types shared by name (thread-unique values; some slots left initialised at thread exit; all nine slot-tag forms - default, ThreadLocalSlot<void,1>, ThreadLocalIndexSlot<0/1>, ThreadLocalSlot<Tag,0/1>, ThreadLocalTypeSlot<Tag> - on one value type must be nine private values; threads park at a barrier "
           "while the addresses of all live (thread, slot) pairs are audited). Random yields / sub-20us sleeps between library calls only. Monitors: ThreadSanitizer (reports de-duplicated from its log), per-thread result "
-          "digest == digest of the same work run one thread at a time, ThreadLocal assertions (first initialisation wins, fresh thread starts empty, no cross-thread / cross-slot value, Clear clears). distinct = hash(interleaving "
+          "digest == digest of the same work run one thread at a time, ThreadLocal assertions (first initialisation wins, fresh thread starts empty, no cross-thread / cross-slot value, Clear clears). Every raw request is also dispatched as one datagram from the shipped BufferReader with the reply going to a BufferWriter of exactly the reply size: same status, same handler run, same reply bytes, and no exception may escape the dispatcher. Readers/writers are also handed over by move (into a by-value Serializer/Deserializer or another reader/writer) with the moved-from object outliving the new owner while other threads obtain descriptors; a monitor over the process descriptor table (claims per thread, checked at hand-out and before release) reports a descriptor closed by an object that does not own it. distinct = hash(interleaving "
           "signature of operation-boundary tickets, round); the number of distinct signatures observed is reported."),
     floor={"quick": 150, "thorough": 3000},
-    require_counters=["c19_rounds", "c19_threads_run", "c19_operation_boundaries", "c19_threadlocal_addresses_audited", "c19_distinct_interleaving_signatures"],
+    require_counters=["c19_rounds", "c19_threads_run", "c19_operation_boundaries", "c19_threadlocal_addresses_audited", "c19_distinct_interleaving_signatures", "c19_descriptor_claims_audited", "c19_signal_disposition_audits"],
     technique="ThreadSanitizer + sequential-equivalence digests + ThreadLocal shadow assertions over barrier-released stress rounds with injected yields",
     level_text="exploration over schedules: each round is one observed interleaving; TSan decides races on the accesses that occurred, digests decide result equivalence, the ThreadLocal monitor decides privacy per round. Absence of reports is 'no race on K rounds with S distinct interleavings', not a proof.",
     level_note="TSan only sees interleavings that occur and synchronisation it intercepts; thread-local storage of exited threads is legitimately reused, so addresses are compared among concurrently live threads only",
